@@ -11,10 +11,12 @@
     xform_correct bound_names_left_alone free_names_looked_up strict_raises lenient_undefined
     name_resolution_order attr_falls_back_to_item item_falls_back_to_attr attr_error_of_class_propagates
     constants_not_looked_up link_consistent pipeline_faithful expression_semantics xform_invertible
+    lex_expression_boundaries lex_dollar_escape lex_name_reference
 -/
 import Genshi.Lemmas.PyEval
 import Genshi.Lemmas.PyXformWF
 import Genshi.Lemmas.PyUnxf
+import Genshi.Lemmas.PyLex
 import Genshi.Props.C13
 namespace Genshi.Props.C03
 open Genshi.Py
@@ -188,5 +190,45 @@ example : unxf (xform (.lambda [] [.param ['a'] none (some (.name ['b']))] none 
     (.subscript (.attribute (.name ['a']) ['c']) (.name ['d']))))
     = .lambda [] [.param ['a'] none (some (.name ['b']))] none [] none
         (.subscript (.attribute (.name ['a']) ['c']) (.name ['d'])) := xform_invertible _ rfl
+
+/-! ### where the expressions are: the model of `interpolation.lex` -/
+
+open Genshi.Py.Lex in
+/-- **Expression boundaries.**  In template text `pre ${inner} post` (no `$` in `pre`, `post`) the
+    chunks are the literal `pre`, the expression with exactly the text `inner`, the literal `post` —
+    for every `inner` made of blanks, operators, words, string literals (escapes, braces and `$`
+    inside them do not count) and balanced braces nested to any depth (`Scannable`). -/
+theorem lex_expression_boundaries (pre inner post : List Char) (hpre : ∀ c ∈ pre, c ≠ '$')
+    (hpost : ∀ c ∈ post, c ≠ '$') (hi : Scannable inner) :
+    lex (pre ++ '$' :: '{' :: (inner ++ '}' :: post)) = .ok (textChunk pre ++ [(true, inner)] ++ textChunk post) :=
+  lex_expr pre inner post hpre hpost hi
+
+open Genshi.Py.Lex in
+/-- `$$` is a literal `$`: the scanner goes on after it with `$` as the start of the next literal,
+    whatever the state. -/
+theorem lex_dollar_escape (f : Nat) (lit : List Char) (out : List (Bool × List Char)) (r : List Char) :
+    lexGo (f + 1) lit out ('$' :: '$' :: r) = lexGo f ['$'] (flush lit out) r :=
+  lexGo_dollar2 f lit out r
+
+open Genshi.Py.Lex in
+/-- `$name.attr`: the expression is the longest run of name characters after the name start. -/
+theorem lex_name_reference (f : Nat) (lit : List Char) (out : List (Bool × List Char)) (c : Char) (r : List Char)
+    (hc : isNameStart c = true) :
+    lexGo (f + 1) lit out ('$' :: c :: r)
+      = lexGo f [] ((true, stripAscii (c :: r.takeWhile isNameChar)) :: flush lit out) (r.dropWhile isNameChar) :=
+  lexGo_name f lit out c r hc
+
+open Genshi.Py.Lex in
+/-- `a[{'}': 1}]` — a brace inside a string inside braces -/
+theorem exScannable : Scannable cs!"a[{'}': 1}]" :=
+  .word 'a' _ (by decide) (.plain '[' _ (by decide)
+    (.braces cs!"'}': 1" cs!"]"
+      (.str '\'' ['}'] cs!": 1" (Or.inl rfl) (.char '}' [] (by decide) (by decide) (by decide) .nil)
+        (.plain ':' _ (by decide) (.plain ' ' _ (by decide) (.word '1' _ (by decide) .nil))))
+      (.plain ']' _ (by decide) .nil)))
+
+open Genshi.Py.Lex in
+example : lex cs!"x ${a[{'}': 1}]} y" = .ok [(false, cs!"x "), (true, cs!"a[{'}': 1}]"), (false, cs!" y")] :=
+  lex_expression_boundaries cs!"x " cs!"a[{'}': 1}]" cs!" y" (by decide) (by decide) exScannable
 
 end Genshi.Props.C03
